@@ -6,16 +6,16 @@
    look-ahead, the keywords "@param", "{/literal}}", a backed-up rune), so a step that ends at
    least M bytes before the end of the common prefix behaves identically on both inputs.
 
-   [step_det]: one state function.  [steps_det]: k steps -- if the reference scan passes only
-   through configurations that are live (not the nil state), not lexHeaderParam, with start <= pos
-   and the cursor at least M bytes before |pre|, the scan of the other input passes through the very
-   same configurations (same items sent, same cursor, same lastEmit).
+   [step_det]: one state function (all fifteen).  [steps_det]: k steps -- if the reference scan
+   passes only through configurations that are live (not the nil state), with start <= pos and the
+   cursor at least M bytes before |pre|, the scan of the other input passes through the very same
+   configurations (same items sent, same cursor, same lastEmit).
 
-   Not covered: lexHeaderParam ({@param x: T}: the scan of the type backs up over trailing white
-   space to a position the cursor facts do not bound from below).  The lemmas are one per scanning
-   loop and state function (LexPrefixStates / LexPrefixStep / LexPrefixMore / LexPrefixTail). *)
+   The lemmas are one per scanning loop and state function (LexPrefixStates / LexPrefixStep /
+   LexPrefixMore / LexPrefixTail / LexPrefixHeader; lexHeaderParam needs where skipSpace stops after
+   the scan of the type has backed up over trailing white space: header_type_loop_skip). *)
 From Soy Require Import Model.Bytes Model.Utf8 Model.Outcome Model.Token Model.Lexer Generated.Tables
-  Proofs.LexPrefix Proofs.LexPrefixStates Proofs.LexPrefixStep Proofs.LexPrefixMore Proofs.LexPrefixTail.
+  Proofs.LexPrefix Proofs.LexPrefixStates Proofs.LexPrefixStep Proofs.LexPrefixMore Proofs.LexPrefixTail Proofs.LexPrefixHeader.
 From Coq Require Import ZifyBool ZifyNat ZifyN Lia List.
 Import ListNotations.
 Open Scope Z_scope.
@@ -45,11 +45,11 @@ Definition good (st : lstate) (l : lx) : Prop :=
   l_pos l + M <= h /\ st <> LDone /\ l_start l <= l_pos l.
 
 Theorem step_det st l res :
-  st <> LHeaderParam -> l_start l <= l_pos l ->
+  l_start l <= l_pos l ->
   step ul ud inp1 n1 base st l = Ok res -> l_pos (snd res) + M <= h -> fst res <> LDone ->
   step ul ud inp2 n2 base st l = Ok res.
 Proof.
-  intros Hh Hs H Hb Hl. destruct st; cbn [step] in *; try congruence.
+  intros Hs H Hb Hl. destruct st; cbn [step] in *; try congruence.
   - apply (lex_text_det ul ud pre r1 r2 base); assumption.
   - apply (lex_left_delim_det ul ud pre r1 r2 base); assumption.
   - apply (lex_right_delim_det ul ud pre r1 r2 base); assumption.
@@ -61,6 +61,7 @@ Proof.
   - apply (lex_block_comment_det ul ud pre r1 r2 base); assumption.
   - apply (lex_string_det ul ud pre r1 r2 base); assumption.
   - apply (lex_ident_det ul ud pre r1 r2 base); assumption.
+  - apply (lex_header_param_det ul ud pre r1 r2 base); assumption.
   - apply (lex_css_det ul ud pre r1 r2 base); assumption.
   - apply (lex_literal_det ul ud pre r1 r2 base); assumption.
   - apply (lex_number_det ul ud pre r1 r2 base); assumption.
@@ -76,15 +77,15 @@ Fixpoint psteps (inp : bstr) (k : nat) (st : lstate) (l : lx) : outcome (lstate 
 
 Theorem steps_det : forall k st l st' l',
   psteps inp1 k st l = Ok (st', l') ->
-  (forall j, (j <= k)%nat -> forall stj lj, psteps inp1 j st l = Ok (stj, lj) -> good stj lj /\ (j < k -> stj <> LHeaderParam)%nat) ->
+  (forall j, (j <= k)%nat -> forall stj lj, psteps inp1 j st l = Ok (stj, lj) -> good stj lj) ->
   psteps inp2 k st l = Ok (st', l').
 Proof.
   induction k as [|k IH]; intros st l st' l' H Hg; cbn [psteps] in *; [exact H|].
   destruct (step ul ud inp1 n1 base st l) as [[st1 l1]| | | | |] eqn:E; cbn [bind] in H; try discriminate.
-  destruct (Hg 0%nat ltac:(lia) st l eq_refl) as [(G0 & G1 & G2) G3].
-  destruct (Hg 1%nat ltac:(lia) st1 l1) as [(K0 & K1 & K2) _]; [cbn [psteps]; rewrite E; reflexivity|].
-  rewrite (step_det st l (st1, l1) (G3 ltac:(lia)) G2 E K0 K1). cbn [bind].
+  destruct (Hg 0%nat ltac:(lia) st l eq_refl) as (G0 & G1 & G2).
+  destruct (Hg 1%nat ltac:(lia) st1 l1) as (K0 & K1 & K2); [cbn [psteps]; rewrite E; reflexivity|].
+  rewrite (step_det st l (st1, l1) G2 E K0 K1). cbn [bind].
   apply IH; [exact H|]. intros j Hj stj lj Hs.
-  destruct (Hg (S j) ltac:(lia) stj lj) as [A B]; [cbn [psteps]; rewrite E; exact Hs|]. split; [exact A|]. intros; apply B; lia.
+  apply (Hg (S j) ltac:(lia) stj lj). cbn [psteps]. rewrite E. exact Hs.
 Qed.
 End Main.
